@@ -20,4 +20,56 @@ def prop (j : Json) : Except String Json := do
   pure <| Json.mkObj [("answers", Json.arr (us.map m2Json).toArray), ("times", jInts q.p.times),
     ("t_last", (q.p.sol.tl : Json))]
 
+/-! `C11.options`: {"S": {key: default}, "I": {method: {key: default}}, "method": m0,
+"ops": [["set", {key: value | null, ("method": m)}], ["item", key, value | null], ["method", m]]}; values are strings.
+One output per operation: the options object afterwards as {"method": m, "vals": [[key, value], ...]} (keys of S and of
+the method's integrator, sorted by the caller) or "KeyError". -/
+def objPairs (j : Json) : Except String (List (String × Json)) := do
+  match j with
+  | .obj kvs => pure (kvs.toList)
+  | _ => throw "object expected"
+
+def optionsJ (j : Json) : Except String Json := do
+  let sPairs ← objPairs (← j.getObjVal? "S")
+  let sD ← sPairs.mapM fun (k, v) => do pure (k, ← v.getStr?)
+  let iPairs ← objPairs (← j.getObjVal? "I")
+  let iD ← iPairs.mapM fun (m, o) => do
+    let kv ← objPairs o
+    pure (m, ← kv.mapM fun (k, v) => do pure (k, ← v.getStr?))
+  let sp : OptSpec String String String := {
+    S := fun k => (sD.lookup k).isSome,
+    I := fun m k => ((iD.lookup m).getD []).lookup k |>.isSome,
+    dS := fun k => (sD.lookup k).getD "",
+    dI := fun m k => (((iD.lookup m).getD []).lookup k).getD "" }
+  let allKeys := (sD.map (·.1)) ++ (iD.flatMap fun p => p.2.map (·.1))
+  let show_ := fun (st : OptState String String String) =>
+    Json.mkObj [("method", (st.method : Json)),
+      ("vals", Json.arr ((allKeys.eraseDups.filterMap fun k => (st.vals k).map fun w => Json.arr #[(k : Json), (w : Json)]).toArray))]
+  let mut st : OptState String String String := OptState.default sp (← getStr j "method")
+  let mut out : Array Json := #[]
+  for op in (← getArr j "ops") do
+    let a ← op.getArr?
+    let kind ← (a[0]!).getStr?
+    if kind == "set" then
+      let kv ← objPairs a[1]!
+      let meth := match kv.lookup "method" with
+        | some (.str m) => some m
+        | _ => none
+      let rest := kv.filter fun p => p.1 != "method"
+      let vals : List (String × Option String) := rest.map fun (k, v) => (k, match v with | .str s => some s | _ => none)
+      let nw : NewOpts String String String := { method := meth, opts := fun k => vals.lookup k, keys := vals.map (·.1) }
+      match setOptions sp st nw with
+      | none => out := out.push "KeyError"
+      | some s' => st := s'; out := out.push (show_ st)
+    else if kind == "item" then
+      let k ← (a[1]!).getStr?
+      let v := match a[2]! with | .str s => some s | _ => none
+      match setItem sp st k v with
+      | none => out := out.push "KeyError"
+      | some s' => st := s'; out := out.push (show_ st)
+    else
+      st := setMethod sp st (← (a[1]!).getStr?)
+      out := out.push (show_ st)
+  pure (Json.arr out)
+
 end Qv.Drv.C11
